@@ -16,6 +16,11 @@ use std::sync::mpsc;
 use std::time::Duration;
 
 const HANG_SECS: u64 = 20;
+/// after the first hang in this process the remaining calls get a shorter deadline, and after
+/// `MAX_HANGS` of them no further call is started (every hung call keeps a thread spinning)
+const HANG_SECS_LATER: u64 = 5;
+const MAX_HANGS: usize = 3;
+static HANGS: std::sync::atomic::AtomicUsize = std::sync::atomic::AtomicUsize::new(0);
 
 // ------------------------------------------------------------------------------------------------
 // the failing writer
@@ -107,12 +112,25 @@ fn ordinary(rng: &mut Rng) -> f32 {
 }
 
 /// fills the `len`-byte buffer of an image of `channels` channels
-fn fill(content: &str, precision: Precision, channels: usize, len: usize, seed: u64) -> Vec<u8> {
+fn fill(content: &str, precision: Precision, channels: usize, geom: (u32, u32, usize), seed: u64) -> Vec<u8> {
+    let (w, h, pitch_extra) = geom;
+    let bpp = channels * match precision {
+        Precision::U8 => 1,
+        Precision::U16 => 2,
+        Precision::F32 => 4,
+    };
+    let len = if w == 0 || h == 0 { 0 } else { (w as usize * bpp + pitch_extra) * (h as usize - 1) + w as usize * bpp };
     let mut rng = Rng::new(seed);
     let mut buf = vec![0u8; len];
+    // the padding between rows is never read; make it noise
+    if pitch_extra > 0 {
+        buf.iter_mut().for_each(|b| *b = rng.next() as u8);
+    }
     match precision {
         Precision::F32 => {
-            let n = len / 4;
+            // values are laid out row by row so that every row starts with a whole value
+            let per_row = w as usize * channels;
+            let n = if len == 0 { 0 } else { per_row * h as usize };
             let special_at = if n > 0 { rng.below(n as u64) as usize } else { 0 };
             for i in 0..n {
                 let ch = i % channels.max(1);
@@ -167,9 +185,10 @@ fn fill(content: &str, precision: Precision, channels: usize, len: usize, seed: 
                     "max" => 1.0,
                     _ => ordinary(&mut rng),
                 };
-                buf[i * 4..i * 4 + 4].copy_from_slice(&v.to_ne_bytes());
+                let (row, col) = (i / per_row, i % per_row);
+                let at = row * (per_row * 4 + pitch_extra) + col * 4;
+                buf[at..at + 4].copy_from_slice(&v.to_ne_bytes());
             }
-            // the padding bytes between rows (pitch) are part of the pattern; they are never read
         }
         _ => match content {
             "zero" => {}
@@ -201,6 +220,8 @@ enum CallResult {
     Panic(String),
     Hang,
     BadView,
+    /// not started: `MAX_HANGS` earlier calls of this process never returned
+    NotRun,
 }
 
 fn err_name(e: &EncodingError) -> String {
@@ -261,6 +282,12 @@ fn call_inner(c: &Call) -> CallResult {
 }
 
 fn call(c: &Call) -> CallResult {
+    use std::sync::atomic::Ordering;
+    let hangs = HANGS.load(Ordering::SeqCst);
+    if hangs >= MAX_HANGS {
+        return CallResult::NotRun;
+    }
+    let deadline = if hangs == 0 { HANG_SECS } else { HANG_SECS_LATER };
     let (tx, rx) = mpsc::channel();
     let c2 = c.clone();
     let builder = std::thread::Builder::new().stack_size(8 << 20);
@@ -275,9 +302,12 @@ fn call(c: &Call) -> CallResult {
     if handle.is_err() {
         return CallResult::Panic("could not spawn the worker thread".into());
     }
-    match rx.recv_timeout(Duration::from_secs(HANG_SECS)) {
+    match rx.recv_timeout(Duration::from_secs(deadline)) {
         Ok(r) => r,
-        Err(_) => CallResult::Hang,
+        Err(_) => {
+            HANGS.fetch_add(1, Ordering::SeqCst);
+            CallResult::Hang
+        }
     }
 }
 
@@ -361,20 +391,20 @@ fn run_e(t: &[&str]) -> Option<(String, Vec<String>)> {
     let options = parse_options(t[9], t[10], t[11], t[12])?;
     let fault = if t[13] == "-" { None } else { Some(p_usize(t[13])?) };
 
-    let len = buffer_len(w, h, color, pitch_extra);
-    let data = fill(content, color.precision, channel_count(color.channels), len, cseed);
+    let data = fill(content, color.precision, channel_count(color.channels), (w, h, pitch_extra), cseed);
     let c = Call { path_encoder, format, w, h, color, pitch_extra, data, options, fault };
     let r = call(&c);
 
     let mut oracle: Vec<String> = vec![];
     let res = match &r {
         CallResult::BadView => return None,
+        CallResult::NotRun => "not-run-after-hangs".to_string(),
         CallResult::Panic(m) => {
             oracle.push(format!("panic: {m}"));
             "panic".to_string()
         }
         CallResult::Hang => {
-            oracle.push(format!("hang: the call did not return within {HANG_SECS} s"));
+            oracle.push("hang: the call did not return within the deadline".to_string());
             "hang".to_string()
         }
         CallResult::Done { kind, bytes, writes_after_failure, view_size } => {
@@ -458,7 +488,7 @@ fn run_e(t: &[&str]) -> Option<(String, Vec<String>)> {
     // NaN / Inf / out-of-range content never changes the result kind or the length
     if color.precision == Precision::F32 && content != "ord" && matches!(r, CallResult::Done { .. }) {
         let mut c2 = c.clone();
-        c2.data = fill("ord", color.precision, channel_count(color.channels), len, cseed);
+        c2.data = fill("ord", color.precision, channel_count(color.channels), (w, h, pitch_extra), cseed);
         let r2 = call(&c2);
         match (&r, &r2) {
             (CallResult::Done { kind: k1, bytes: b1, .. }, CallResult::Done { kind: k2, bytes: b2, .. }) => {
@@ -536,9 +566,10 @@ fn run_q(t: &[&str]) -> Option<(String, Vec<String>)> {
             return Some(("panic".into(), oracle));
         }
         CallResult::Hang => {
-            oracle.push(format!("hang: the call did not return within {HANG_SECS} s"));
+            oracle.push("hang: the call did not return within the deadline".to_string());
             return Some(("hang".into(), oracle));
         }
+        CallResult::NotRun => return Some(("not-run-after-hangs".into(), oracle)),
         CallResult::BadView => return None,
         CallResult::Done { kind, .. } => {
             if kind != "ok" {
